@@ -24,6 +24,7 @@ struct AppSink {
     virtual void on_unsub_done(int op, error_code ec, const std::vector<uint8_t>& rcs, const mq::unsuback_props& props) = 0;
     virtual void on_recv_done(int op, error_code ec, std::string topic, std::string payload, const mq::publish_props& props) = 0;
     virtual void on_disconnect_done(int op, error_code ec) = 0;
+    virtual void on_io_done(int op, error_code ec, std::size_t n) = 0;   // autoconnect_stream level operations (reconnection probe)
     virtual void on_dropped(int op) = 0;          // handler destroyed without having been invoked
 };
 
@@ -59,5 +60,26 @@ public:
 };
 
 std::unique_ptr<IClient> make_client(boost::asio::io_context& ioc, AppSink& sink);
+
+// The library's autoconnect_stream (connection lock, reconnect_op, shutdown_op, read/write ops) on its own, below the client:
+// lets a workload issue reads, writes and shutdowns concurrently and cancel individual ones through their slots.
+class IReconn {
+public:
+    virtual ~IReconn() = default;
+    virtual void configure(const std::string& brokers, uint16_t default_port, const ClientCfg& cfg) = 0;
+    virtual void open() = 0;
+    virtual void read(int op, long long timeout_ms, bool with_slot) = 0;      // timeout_ms < 0: no read timeout
+    virtual void write(int op, std::string bytes, bool with_slot) = 0;
+    virtual void shutdown(int op, bool with_slot) = 0;
+    // starts a reconnect_op for the stream that is current now (what a failed read/write/ping does), with a cancellable handler
+    virtual void trigger(int op, bool with_slot) = 0;
+    virtual void emit_signal(int op, SigType type) = 0;
+    virtual void cancel() = 0;       // autoconnect_stream::cancel(): aborts lock waiters and the connect timer
+    virtual void close() = 0;
+    virtual bool is_open() const = 0;
+};
+std::unique_ptr<IReconn> make_reconn(boost::asio::io_context& ioc, AppSink& sink);
+// reconnect_op on a minimal owner with public members (the library's own tests use the same device): waiters can be cancelled one by one
+std::unique_ptr<IReconn> make_reconnect_probe(boost::asio::io_context& ioc, AppSink& sink);
 
 }  // namespace sim
